@@ -181,19 +181,29 @@ end
 
 def maxDepth : Nat := NV.Gen.C16.maxSaveSvalueDepth
 
+/-- the additive constants of `svalue_save_size` (`return 3 + size`, `return size + 5` (array, class, mapping),
+    `return len + 2`, `save_real_text(..) + 1`, `default: return 2`) — REGENERATED from its return statements -/
+def sizeStr : Nat := NV.Gen.C16.sizeStr
+def sizeArr : Nat := NV.Gen.C16.sizeArr
+def sizeCls : Nat := NV.Gen.C16.sizeCls
+def sizeMap : Nat := NV.Gen.C16.sizeMap
+def sizeInt : Nat := NV.Gen.C16.sizeInt
+def sizeReal : Nat := NV.Gen.C16.sizeReal
+def sizeOther : Nat := NV.Gen.C16.sizeOther
+
 /-- default of the configuration item MaxArraySize (lib/rc/rc.cpp); the harness does not override it -/
 def maxArray : Nat := NV.Gen.C16.maxArraySize
 
 mutual
 /-- `svalue_save_size` with `save_svalue_depth = d` on entry; `none` = too_deep_save_error() -/
 def saveSize (F : FloatOps α) (d : Nat) : Value α → Option Nat
-  | .int n => some ((if n < 0 then 1 else 0) + ndigits (magnitude n) + 2)
-  | .real x => some ((saveReal F x).length + 1)
-  | .str s => some (3 + strSize s)
-  | .arr xs => if d + 1 > maxDepth then none else (sizeElems F (d + 1) xs).map (· + 5)
-  | .cls xs => if d + 1 > maxDepth then none else (sizeElems F (d + 1) xs).map (· + 5)
-  | .map ps => if d + 1 > maxDepth then none else (sizePairs F (d + 1) ps).map (· + 5)
-  | .obj => some 2
+  | .int n => some ((if n < 0 then 1 else 0) + ndigits (magnitude n) + sizeInt)
+  | .real x => some ((saveReal F x).length + sizeReal)
+  | .str s => some (sizeStr + strSize s)
+  | .arr xs => if d + 1 > maxDepth then none else (sizeElems F (d + 1) xs).map (· + sizeArr)
+  | .cls xs => if d + 1 > maxDepth then none else (sizeElems F (d + 1) xs).map (· + sizeCls)
+  | .map ps => if d + 1 > maxDepth then none else (sizePairs F (d + 1) ps).map (· + sizeMap)
+  | .obj => some sizeOther
 def sizeElems (F : FloatOps α) (d : Nat) : Vals α → Option Nat
   | .nil => some 0
   | .cons v r =>
@@ -283,6 +293,15 @@ def skipStrMb (mb : MbLen) : Nat → List Byte → MbScan
         | _ :: r'' => skipStrMb mb fuel r''
       else skipStrMb mb fuel r'
 
+/-- the restore side of the LF/CR substitution (`case '\r': *(cp - 1) = '\n'`, `if (c == '\r') *newp++ = '\n'`) —
+    REGENERATED from restore_string, restore_interior_string (object.c) and restore_hash_string (mapping.c); that
+    all six sites agree is the generated fact `NV.Gen.C16.restoreSwapSitesAgree` -/
+def restoreSwapFrom : Byte := NV.Gen.C16.restoreSwapFrom
+def restoreSwapTo : Byte := NV.Gen.C16.restoreSwapTo
+
+/-- `sizeof(var)` in restore_object_from_buff — REGENERATED -/
+def varBufSize : Nat := NV.Gen.C16.varBufSize
+
 /-- restore_interior_string / restore_hash_string / restore_string: decoded contents and the rest after the
     closing quote.  An escaped byte is taken verbatim, an unescaped CR becomes LF. -/
 def decodeStr : List Byte → Option (List Byte × List Byte)
@@ -293,7 +312,7 @@ def decodeStr : List Byte → Option (List Byte × List Byte)
       match r with
       | [] => none
       | x :: r' => (decodeStr r').map (fun p => (x :: p.1, p.2))
-    else (decodeStr r).map (fun p => ((if c = 13 then 10 else c) :: p.1, p.2))
+    else (decodeStr r).map (fun p => ((if c = restoreSwapFrom then restoreSwapTo else c) :: p.1, p.2))
 
 /-! ### numbers -/
 
@@ -777,7 +796,7 @@ def restoreLines (F : FloatOps α) (mb : MbLen) (noclear : Bool) : List (List By
     else if l.head? = some 35 then restoreLines F mb noclear ls vars
     else
       let name := l.takeWhile (· ≠ 32)
-      if name.length = l.length ∨ name.length ≥ 100 then .error "restore_object(): Illegal file format." vars
+      if name.length = l.length ∨ name.length ≥ varBufSize then .error "restore_object(): Illegal file format." vars
       else
         let text := l.drop (name.length + 1)
         match vars.find? (fun v => v.name = name) with
@@ -839,7 +858,7 @@ def saveScript (chunks : List (List Byte)) (fail : Option Nat) : List Call × Na
   | none => (.fopenTmp :: (writes ++ [.fclose, .rename]), 1)
   | some k =>
     if k = 0 then ([], 0)                                         -- fopen failed: return 0
-    else if k = 1 then ([.fopenTmp], 0)                           -- header fprintf failed: return 0 (tmp left behind)
+    else if k = 1 then ([.fopenTmp, .fclose, .unlinkTmp], 0)      -- header fprintf failed: fclose, unlink, return 0
     else if k ≤ nW then
       -- a variable line failed: save_object_recurse returns 0; fclose; unlink
       (.fopenTmp :: ((writes.take (k - 1)) ++ [.fclose, .unlinkTmp]), 0)
@@ -850,6 +869,11 @@ def saveScript (chunks : List (List Byte)) (fail : Option Nat) : List Call × Na
       -- rename failed: unlink
       (.fopenTmp :: (writes ++ [.fclose, .unlinkTmp]), 0)
     else (.fopenTmp :: (writes ++ [.fclose, .rename]), 1)
+
+/-- `snprintf(tmp_name, sizeof tmp_name, "%.250s.tmp", file)`: the temporary's name — prefix length and buffer size
+    REGENERATED -/
+def tmpName (file : List Byte) : List Byte :=
+  (file.take NV.Gen.C16.tmpPrefixMax ++ [46, 116, 109, 112]).take (NV.Gen.C16.tmpBufSize - 1)
 
 /-- number of interposed calls of a save without failure -/
 def scriptLen (chunks : List (List Byte)) : Nat := chunks.length + 3
